@@ -318,6 +318,40 @@ func (g *FieldGen) Comp(depth int, allowNone bool) *T {
 	return N("c", kids...)
 }
 
+// AnyPrim generates an arbitrary (usually incoherent) primitive spec: any kind with any
+// encoder, prefixer, pad and packer. Used for the malformed stream: the model must agree
+// with the code on misuse as well, and decoding must never panic (C04).
+func (g *FieldGen) AnyPrim() *T {
+	r := g.R
+	kind := Pick(r, []string{"s", "n", "b", "h"})
+	enc := Pick(r, append(append([]string{}, valueEncs...), "hexToBytes", "berTag"))
+	pref := Pick(r, AllPrefixers())
+	pad := Pick(r, []string{"nil", "nil", "none", "L30", "R20", "R46", "L00", "R7f", "L2d"})
+	packer := Pick(r, []string{"d", "d", "d", "t2"})
+	length := Pick(r, []int{0, 1, 2, 3, 5, 8, 9, 10, 16, 99, 100, 255, 999, 70000})
+	g.count("anyprim " + kind + " " + enc)
+	return N("p", A(kind), A(strconv.Itoa(length)), A(enc), A(pref), A(pad), A(packer))
+}
+
+// AnyValue generates a value of the right kind with arbitrary content.
+func (g *FieldGen) AnyValue(spec *T) *T {
+	r := g.R
+	if spec.Name != "p" {
+		return g.Value(spec, false)
+	}
+	l := r.Intn(12)
+	switch spec.Kids[0].Name {
+	case "s":
+		return N("s", A(H(r.From([]byte("0123456789ABCDEFabcdef =^?\x00\x7f\x80\xff-+"), l))))
+	case "b":
+		return N("b", A(H(r.Bytes(l))))
+	case "h":
+		return N("h", A(H(r.From([]byte("0123456789ABCDEFabcdefg"), l))))
+	default:
+		return N("n", A(strconv.FormatInt(int64(r.U64()>>uint(r.Intn(64)))*int64(1-2*r.Intn(2)), 10)))
+	}
+}
+
 func (g *FieldGen) Field(depth int) *T {
 	if depth > 0 && g.R.Intn(3) == 0 {
 		return g.Comp(depth, false)
@@ -386,6 +420,12 @@ func (g *FieldGen) Value(spec *T, over bool) *T {
 				l = max
 			default:
 				l = r.Intn(max + 1)
+			}
+		}
+		if pref == "ber" && !(fixed && !padded) && r.Intn(3) == 0 {
+			// BER short/long form boundaries
+			if b := Pick(r, []int{126, 127, 128, 129, 255, 256, 257}); b <= max {
+				l = b
 			}
 		}
 		if over {
@@ -654,6 +694,26 @@ func ChannelF(t Tier, r *Rng, emit Emit) {
 			}
 		}
 		emit(fmt.Sprintf("F %s unpack %s", ss, H(r.Bytes(r.Intn(12)))))
+	}
+	// arbitrary (incoherent) primitive specs: misuse must be modelled faithfully too
+	for i := 0; i < t.N(1500, 40000); i++ {
+		spec := g.AnyPrim()
+		ss := spec.String()
+		v := g.AnyValue(spec)
+		line := fmt.Sprintf("F %s pack %s", ss, v.String())
+		emit(line)
+		if wire, ok := packReal(line); ok {
+			emit(fmt.Sprintf("F %s unpack %s", ss, H(wire)))
+			emit(fmt.Sprintf("F %s unpack %s", ss, H(append(append([]byte{}, wire...), r.Bytes(1+r.Intn(3))...))))
+			if len(wire) > 0 {
+				emit(fmt.Sprintf("F %s unpack %s", ss, H(wire[:r.Intn(len(wire))])))
+			}
+		}
+		d := r.Bytes(r.Intn(10))
+		if r.Bool() {
+			d = r.From([]byte("0123456789\x00\x01\x02\x81\x82\xf0\xf1\xf5AF"), r.Intn(10))
+		}
+		emit(fmt.Sprintf("F %s unpack %s", ss, H(d)))
 	}
 	for k, v := range g.Dist {
 		_ = k
